@@ -113,6 +113,10 @@ def main():
             ctx.notes.append('prelude_check not available')
         mod.run(ctx)
         ctx.flush()
+        # defaults / parameter order of the anchored public functions of this property (harness/props/_sig.py)
+        import _sig
+        _sig.run_sig(ctx, prop)
+        ctx.flush()
     except Exception as e:
         # an exception escaping the harness is treated as an infrastructure problem, not as a verdict
         print(f"INFRASTRUCTURE ERROR in harness: {type(e).__name__}: {e}")
